@@ -351,7 +351,19 @@ func init() {
 				vs = cty.ListVal(l)
 			}
 		}
-		if r.Chance(30) && ks.IsKnown() && !ks.IsNull() && ks.LengthInt() > 0 {
+		if r.Chance(30) && ks.IsKnown() && !ks.IsNull() && ks.LengthInt() >= 2 {
+			// a repeated key: the last value wins, in the result and in its predicted type
+			es := ks.AsValueSlice()
+			es[len(es)-1] = es[r.Intn(len(es)-1)]
+			ks = cty.ListVal(es)
+			if r.Bool() {
+				ts := make([]cty.Value, len(es))
+				for i := range ts {
+					ts[i] = kv(r, primT(r))
+				}
+				vs = cty.TupleVal(ts)
+			}
+		} else if r.Chance(30) && ks.IsKnown() && !ks.IsNull() && ks.LengthInt() > 0 {
 			// a known list of keys with an unknown (or null) key inside
 			es := ks.AsValueSlice()
 			if r.Chance(80) {
@@ -415,6 +427,11 @@ func init() {
 			} else {
 				vs[i] = kvNull(r, t)
 			}
+		}
+		if len(vs) >= 2 && r.Chance(35) {
+			// a null of another type before (or between) the values: the result type is decided by all the types
+			o := primT(r)
+			vs[r.Intn(len(vs)-1)] = cty.NullVal(o.Build())
 		}
 		return vs
 	})
